@@ -18,5 +18,5 @@ cd /verif && VERIF_REPO="$wt" ./check C05 "$tier"; rc=$?
 echo "check exit code: $rc"
 git -C /repo worktree remove --force "$wt"
 alt="/verif/work/alt-$(echo "$wt" | sed 's/[^A-Za-z0-9]\+/_/g; s/^_//; s/_$//')"
-rm -rf "$alt/target" "$alt/sim" "$alt/work"
+rm -rf "$alt/target" "$alt/target-fine" "$alt/target-fallback" "$alt/sim" "$alt/work"
 exit $rc
